@@ -30,17 +30,18 @@ enum Kind {
     // and 1..6 mobilities (rotation functions of one coordinate each, translation functions of several), Custom "helix slider"
     KFBN1, KFBN2, KFBN3, KFBN4, KFBN5, KFBN6, KCustomHelix,
     NKIND,
-    // FunctionBased usages that the documentation allows but the unchanged library gets wrong (notes/C02.md, notes/C03.md);
+    // user-defined mobilizers that the documentation allows / recommends but the unchanged library gets wrong (notes/C02.md, notes/C03.md);
     // NOT part of kindDirs(): enumerated only by the harness whose property they violate (defectKindDirs())
     KFBCoupled3 = NKIND,   // every rotation function depends on two coordinates
     KFBConstRot2,          // a non-zero CONSTANT x-rotation function in front of two coordinate-driven rotations
+    KCustomHelixPrecalc,   // the helix slider with H / HDot precalculated in realizePosition() / realizeVelocity(), as MobilizedBody_Custom.h suggests
     NKIND_ALL
 };
 inline const char* kindName(int k) {
     static const char* n[] = {"Pin", "Slider", "Universal", "Cylinder", "BendStretch", "Planar", "Gimbal", "Bushing", "Ball", "Free",
         "LineOrientation", "FreeLine", "Translation", "Screw", "SphericalDefault", "SphericalCustom",
         "Ellipsoid", "CantileverFreeBeam", "Weld", "CustomPin", "CustomBall", "CustomTranslation", "FBPin", "FBPlanar",
-        "FBN1", "FBN2", "FBN3", "FBN4", "FBN5", "FBN6", "CustomHelix", "FBCoupled3", "FBConstRot2"};
+        "FBN1", "FBN2", "FBN3", "FBN4", "FBN5", "FBN6", "CustomHelix", "FBCoupled3", "FBConstRot2", "CustomHelixPrecalc"};
     return (k >= 0 && k < NKIND_ALL) ? n[k] : "?";
 }
 inline bool kindHasQuaternion(int k) { return k == KBall || k == KFree || k == KLineOrientation || k == KFreeLine || k == KEllipsoid || k == KCustomBall; }
@@ -51,7 +52,7 @@ inline bool kindReversible(int k) { return k != KWeld && k != KCustomPin && k !=
 // user-defined kinds with a q-dependent hinge matrix (added after the mirrors)
 inline bool kindIsNonlinearUserDefined(int k) { return k >= KFBN1 && k < NKIND_ALL; }
 inline bool kindIsFunctionBasedNonlinear(int k) { return (k >= KFBN1 && k <= KFBN6) || k == KFBCoupled3 || k == KFBConstRot2; }
-inline bool kindIsDefectExposing(int k) { return k == KFBCoupled3 || k == KFBConstRot2; }
+inline bool kindIsDefectExposing(int k) { return k == KFBCoupled3 || k == KFBConstRot2 || k == KCustomHelixPrecalc; }
 
 // ---------------------------------------------------------------- Custom mirrors (copied in spirit from the documented Custom API)
 class CustomPinImpl : public MobilizedBody::Custom::Implementation {
@@ -175,6 +176,44 @@ public:
     }
 };
 
+// (1b) The same mobilizer written the way MobilizedBody_Custom.h recommends ("the Position and Velocity realize methods will be called
+//     before calling the matrix operator methods for this MobilizedBody. That way if you want to precalculate the H or HDot matrix, for
+//     example, you can do so in realizePosition() or realizeVelocity() and then use it in multiplyByHMatrix(), etc."): H and HDot are
+//     stored in two State cache entries by realizePosition() / realizeVelocity() and only read by the operators.  The entries start
+//     with H(q=0), HDot=0 and are read without a stage check (a stage-checked read throws during the first realize(Position), because
+//     the unchanged library runs the position kinematics -- and with them multiplyByHMatrix -- BEFORE Implementation::realizePosition()).
+class CustomHelixPrecalcImpl : public CustomHelixImpl {
+public:
+    typedef Vec<2, SpatialVec> HM;
+    explicit CustomHelixPrecalcImpl(SimbodyMatterSubsystem& m) : CustomHelixImpl(m), sub(m.getMySubsystemIndex()) {}
+    Implementation* clone() const override { return new CustomHelixPrecalcImpl(*this); }
+    void realizeTopology(State& s) const override {
+        const HM h0(SpatialVec(Vec3(0, 0, 1), Vec3(0, R0(), PITCH())), SpatialVec(Vec3(0), Vec3(1, 0, 0)));     // H at q = 0
+        hIx = s.allocateCacheEntry(sub, Stage::Position, new Value<HM>(h0));
+        hdIx = s.allocateCacheEntry(sub, Stage::Velocity, new Value<HM>(HM(SpatialVec(Vec3(0), Vec3(0)))));
+    }
+    void realizePosition(const State& s) const override {
+        HM& h = Value<HM>::updDowncast(s.updCacheEntry(sub, hIx)).upd();
+        const Real e0[2] = {1, 0}, e1[2] = {0, 1};
+        h[0] = CustomHelixImpl::multiplyByHMatrix(s, 2, e0); h[1] = CustomHelixImpl::multiplyByHMatrix(s, 2, e1);
+        s.markCacheValueRealized(sub, hIx);
+    }
+    void realizeVelocity(const State& s) const override {
+        HM& h = Value<HM>::updDowncast(s.updCacheEntry(sub, hdIx)).upd();
+        const Real e0[2] = {1, 0}, e1[2] = {0, 1};
+        h[0] = CustomHelixImpl::multiplyByHDotMatrix(s, 2, e0); h[1] = CustomHelixImpl::multiplyByHDotMatrix(s, 2, e1);
+        s.markCacheValueRealized(sub, hdIx);
+    }
+    SpatialVec multiplyByHMatrix(const State& s, int, const Real* u) const override { const HM& h = H(s); return u[0] * h[0] + u[1] * h[1]; }
+    void multiplyByHTranspose(const State& s, const SpatialVec& F, int, Real* f) const override { const HM& h = H(s); f[0] = ~h[0] * F; f[1] = ~h[1] * F; }
+    SpatialVec multiplyByHDotMatrix(const State& s, int, const Real* u) const override { const HM& h = HD(s); return u[0] * h[0] + u[1] * h[1]; }
+    void multiplyByHDotTranspose(const State& s, const SpatialVec& F, int, Real* f) const override { const HM& h = HD(s); f[0] = ~h[0] * F; f[1] = ~h[1] * F; }
+private:
+    const HM& H(const State& s) const { return Value<HM>::downcast(s.updCacheEntry(sub, hIx)).get(); }
+    const HM& HD(const State& s) const { return Value<HM>::downcast(s.updCacheEntry(sub, hdIx)).get(); }
+    SubsystemIndex sub; mutable CacheEntryIndex hIx, hdIx;
+};
+
 // (2) FunctionBased with nonlinear coordinate functions.  One table (FnSpec) describes each of the six functions; it is turned
 //     into library Function objects (Function::Constant / Linear / Polynomial / Sinusoid, and SmoothFn below for several
 //     arguments) by makeFunction(), and evaluated INDEPENDENTLY in long double by refFunction() for the reference pose.
@@ -288,7 +327,7 @@ inline FBSpec fbSpec(int kind) {
     }
     return S;
 }
-inline int kindNumMobilitiesUserDefined(int kind) { return kind == KCustomHelix ? 2 : fbSpec(kind).nm; }
+inline int kindNumMobilitiesUserDefined(int kind) { return (kind == KCustomHelix || kind == KCustomHelixPrecalc) ? 2 : fbSpec(kind).nm; }
 
 // Reference pose X_FM(q) of the user-defined kinds above in the direction they are DEFINED (long double; closed form).
 // FunctionBased (MobilizedBody_FunctionBased.h): the six functions give, in order, the x, y, z rotation and the x, y, z translation;
@@ -301,7 +340,7 @@ inline void refAxisRotation(long double angle, const long double n[3], long doub
     for (int i = 0; i < 3; ++i) for (int j = 0; j < 3; ++j) R[i][j] = (i == j ? c : 0) + (1 - c) * n[i] * n[j] + s * K[i][j];
 }
 inline bool refMobilizerTransform(int kind, const std::vector<long double>& q, RefX& X) {
-    if (kind == KCustomHelix) {
+    if (kind == KCustomHelix || kind == KCustomHelixPrecalc) {
         if (q.size() != 2) return false;
         const long double c = cosl(q[0]), s = sinl(q[0]), r = (long double)CustomHelixImpl::R0() + q[1];
         const long double R[3][3] = {{c, -s, 0}, {s, c, 0}, {0, 0, 1}};
@@ -435,6 +474,7 @@ inline MobilizedBody addBody(Model& M, const BodySpec& b) {
         case KCustomBall: return MobilizedBody::Custom(parent, new CustomBallImpl(M.matter), X_PF, body, X_BM);
         case KCustomTranslation: return MobilizedBody::Custom(parent, new CustomTranslationImpl(M.matter), X_PF, body, X_BM);
         case KCustomHelix: return MobilizedBody::Custom(parent, new CustomHelixImpl(M.matter), X_PF, body, X_BM, d);
+        case KCustomHelixPrecalc: return MobilizedBody::Custom(parent, new CustomHelixPrecalcImpl(M.matter), X_PF, body, X_BM, d);
         case KFBN1: case KFBN2: case KFBN3: case KFBN4: case KFBN5: case KFBN6: case KFBCoupled3: case KFBConstRot2:
             return addFunctionBasedNonlinear(parent, X_PF, body, X_BM, b.kind, d);
         case KFBPin: case KFBPlanar: {
